@@ -189,6 +189,13 @@ SURVEYS = [
 CHOICES = [{"list_name": "yn", "name": "y", "label": "Y"}, {"list_name": "yn", "name": "n", "label": "N"}]
 
 
+def file_stem(name: str) -> str:
+    """the documented fallback: the file name without its last suffix (a leading dot is part of the name;
+    a trailing dot is not a suffix separator)"""
+    i = name.rfind(".")
+    return name if i <= 0 or i == len(name) - 1 else name[:i]
+
+
 def gen_case(rng, tier_big=False, subset=None):
     """One case.  `subset`: fixed list of canonical core settings (exhaustive stream)."""
     channel = rng.choice(["dict"] * 6 + ["path-xlsx", "path-md", "mem-xlsx", "mem-md", "mem-md-str", "path-obj-md"])
@@ -287,11 +294,22 @@ def gen_case(rng, tier_big=False, subset=None):
     fallback = None
     if channel.startswith("path") or (channel == "dict" and rng.random() < 0.4):
         fallback = rng.choice(STEMS) if rng.random() < 0.8 else (tame(rng, 3).replace("/", "_").replace(":", "_").replace('"', "_").replace("<", "_").replace(">", "_") if channel != "dict" else adv(rng, 3))
+    filename = None
+    if channel.startswith("path"):
+        # the file name decides the fallback (its stem) whatever the suffix says about the format: exact
+        # supported suffixes, other spellings of them, foreign suffixes, several dots, no suffix at all
+        xl = channel == "path-xlsx"
+        ext = rng.choice(([".xlsx"] * 4 + [".XLSX", ".Xlsx", ".xlsm", ".dat", ".xlsx.bak", ""]) if xl else
+                         ([".md"] * 4 + [".MD", ".txt", ".markdown", ".Md", ".md.txt", ""]))
+        if not fallback.strip(". "):
+            fallback = "f" + fallback
+        filename = fallback + ext
+        fallback = file_stem(filename)
     has_sheet = bool(cells) or (channel == "dict" and rng.random() < 0.5)
     survey = copy.deepcopy(rng.choice(SURVEYS))
     return {
         "channel": channel, "hdr": hdr, "row": cells, "intended": intended, "attribute": attribute,
-        "args": args, "fallback": fallback, "survey": survey, "dup": dup, "has_sheet": has_sheet,
+        "args": args, "fallback": fallback, "filename": filename, "survey": survey, "dup": dup, "has_sheet": has_sheet,
         "typed": channel.endswith("xlsx") and rng.random() < 0.5,
     }
 
@@ -346,10 +364,9 @@ def run_impl(case, tmpdir):
                 wb["fallback_form_name"] = case["fallback"]
             res = convert(xlsform=copy.deepcopy(wb), **kw)
         elif ch in ("path-xlsx", "path-md", "path-obj-md"):
-            ext = ".xlsx" if ch == "path-xlsx" else ".md"
             d = Path(tempfile.mkdtemp(dir=tmpdir))
-            p = d / (case["fallback"] + ext)
-            if ext == ".xlsx":
+            p = d / (case.get("filename") or (case["fallback"] + (".xlsx" if ch == "path-xlsx" else ".md")))
+            if ch == "path-xlsx":
                 p.write_bytes(to_xlsx_bytes(form, case["typed"]))
             else:
                 p.write_text(impl.to_md(form), encoding="utf-8")
@@ -579,6 +596,9 @@ def one_case(ctx, case, tmpdir):
     m = model_call(ctx, case)
     ctx.count(f"impl:{r['class']}/model:{m['outcome']}")
     ctx.count("channel:" + case["channel"])
+    if case.get("filename"):
+        fn = case["filename"]
+        ctx.count("path_suffix:" + (fn[fn.rfind("."):] if "." in fn[1:] else "(none)")[:12])
     ctx.count("n_settings:%02d" % len(case["intended"] + case["attribute"]))
     ctx.count("fragment:" + ("unsupported" if m["outcome"] == "unsupported" else "modelled"))
     if m["outcome"] == "unsupported":
@@ -642,7 +662,7 @@ def one_case(ctx, case, tmpdir):
                 ctx.fail(Failure("rejected-valid-settings", msg[:300], case))
             elif s["rejects"] is not None and not excused and not err_matches(s["rejects"]["kind"], msg):
                 ctx.fail(Failure("rejected-for-another-reason", msg[:300], case, extra={"spec": s["rejects"]}))
-    ctx.record({k: case[k] for k in ("channel", "hdr", "row", "args", "fallback", "survey", "has_sheet")},
+    ctx.record({k: case[k] for k in ("channel", "hdr", "row", "args", "fallback", "survey", "has_sheet") if k in case},
                r["class"] == "ok" and bool(case["intended"] or case["attribute"]))
 
 
